@@ -1,2 +1,127 @@
-(* C07 — theorems are added below as they are proved. *)
-From Anko Require Import Interp.Model.
+(* C07 — operands are evaluated exactly once, left to right; skipped operands never run.
+   In the model every operand list is evaluated by [eval_rvals] / [eval_values], which make exactly
+   one call of the interpreter per list element, in list order, and stop at the first error. *)
+From Coq Require Import String List ZArith Bool Arith Lia.
+From Anko Require Import Base.Assoc Env.EnvModel Interp.Ast Interp.Value Interp.ToX Interp.Equal Interp.Model.
+Import ListNotations.
+
+(* sequencing law: evaluating es1 ++ es2 is evaluating es1, then es2, for lists of any length *)
+Theorem operand_lists_evaluate_left_to_right : forall rec es1 es2 s acc k,
+  eval_rvals rec (es1 ++ es2) s acc k =
+  eval_rvals rec es1 s acc (fun rs s1 => eval_rvals rec es2 s1 (rev rs) k).
+Proof.
+  intros rec es1. induction es1 as [|e r IH]; intros es2 s acc k; cbn [app eval_rvals].
+  - now rewrite rev_involutive.
+  - destruct (rec (CExpr e) s); auto.
+Qed.
+
+(* one element = exactly one evaluation, and an error ends the evaluation of the operands after it *)
+Theorem each_operand_evaluated_exactly_once : forall rec e es s acc k,
+  eval_rvals rec (e :: es) s acc k =
+    match rec (CExpr e) s with
+    | Ok s1 => eval_rvals rec es s1 (r_rv s1 :: acc) k
+    | Err x s0 => Err x s0
+    | Abort a => Abort a
+    end.
+Proof. reflexivity. Qed.
+
+Theorem literal_operands_left_to_right : forall rec es1 es2 s acc k,
+  eval_values rec (es1 ++ es2) s acc k =
+  eval_values rec es1 s acc (fun vs s1 => eval_values rec es2 s1 (rev vs) k).
+Proof.
+  intros rec es1. induction es1 as [|e r IH]; intros es2 s acc k; cbn [app eval_values].
+  - now rewrite rev_involutive.
+  - destruct (rec (CExpr e) s); auto.
+Qed.
+
+(* a plain call of a script function with the right number of arguments: the arguments, in order,
+   then the call (the direct path and the reflect path have the same order) *)
+Theorem call_evaluates_arguments_then_calls : forall rec c cl args s,
+  nth_error (st_closures (r_st s)) c = Some cl -> cl_vararg cl = false ->
+  length (cl_params cl) = length args ->
+  call_function rec (VFunc c) args false false s =
+    eval_rvals rec args s [] (fun argv s1 => rec (CApply (VFunc c) argv false) (set_rv s1 rv_nil)).
+Proof.
+  intros rec c cl args s Hc Hv Hl. unfold call_function. rewrite Hc, Hv. cbv zeta.
+  rewrite Hl, Nat.eqb_refl. reflexivity.
+Qed.
+
+(* a call rejected for a wrong argument count evaluates no operand: the state is untouched *)
+Theorem wrong_argument_count_evaluates_nothing : forall rec c cl args s,
+  nth_error (st_closures (r_st s)) c = Some cl -> cl_vararg cl = false ->
+  1 <= length (cl_params cl) -> length (cl_params cl) <> length args ->
+  call_function rec (VFunc c) args false false s =
+    arity_error (length (cl_params cl)) (length args) s.
+Proof.
+  intros rec c cl args s Hc Hv H1 Hne. unfold call_function. rewrite Hc, Hv. cbv zeta.
+  destruct (Nat.eqb_spec (length (cl_params cl)) (length args)); [contradiction|]. cbn [andb negb].
+  destruct (length (cl_params cl) <? 1) eqn:E; [apply Nat.ltb_lt in E; lia|]. reflexivity.
+Qed.
+
+(* && and || evaluate the right operand only when the result depends on it *)
+Theorem or_short_circuits : forall orc rec l r s s1,
+  rec (CExpr l) s = Ok s1 ->
+  to_bool orc (len_of_st (r_st s1)) (deref (r_st s1) (r_rv s1)) = TOk true ->
+  invoke_binary orc rec l "||" r s = Ok (set_rv s1 (Imm (VBool true))).
+Proof.
+  intros orc rec l r s s1 Hl Ht. unfold invoke_binary, eval_operand. rewrite Hl, Ht. reflexivity.
+Qed.
+
+Theorem and_short_circuits : forall orc rec l r s s1,
+  rec (CExpr l) s = Ok s1 ->
+  to_bool orc (len_of_st (r_st s1)) (deref (r_st s1) (r_rv s1)) = TOk false ->
+  invoke_binary orc rec l "&&" r s = Ok (set_rv s1 (Imm (VBool false))).
+Proof.
+  intros orc rec l r s s1 Hl Ht. unfold invoke_binary, eval_operand. rewrite Hl, Ht. reflexivity.
+Qed.
+
+(* ?: evaluates the condition and exactly the selected branch *)
+Theorem ternary_evaluates_selected_branch_only : forall orc rec c l r s s1 b,
+  rec (CExpr c) s = Ok s1 ->
+  to_bool orc (len_of_st (r_st s1)) (deref (r_st s1) (r_rv s1)) = TOk b ->
+  invoke_ternary orc rec c l r s = rec (CExpr (if b then l else r)) s1.
+Proof.
+  intros orc rec c l r s s1 b Hc Ht. unfold invoke_ternary, truthy. rewrite Hc, Ht. reflexivity.
+Qed.
+
+(* ?? evaluates its right side only when the left is nil or fails *)
+Theorem coalesce_skips_right_when_left_is_a_value : forall rec l r s s1,
+  rec (CExpr l) s = Ok s1 -> is_nil (deref (r_st s1) (r_rv s1)) = false ->
+  invoke_coalesce rec l r s = Ok s1.
+Proof. intros rec l r s s1 Hl Hn. unfold invoke_coalesce. now rewrite Hl, Hn. Qed.
+
+(* binary operators: left operand, then right operand, each once *)
+Theorem binary_operands_left_then_right : forall rec l r s k,
+  eval_operand rec l s (fun lv s1 => eval_operand rec r s1 (k lv)) =
+    match rec (CExpr l) s with
+    | Ok s1 => match rec (CExpr r) s1 with
+               | Ok s2 => k (deref (r_st s1) (r_rv s1)) (deref (r_st s2) (r_rv s2)) s2
+               | Err e s0 => Err e s0
+               | Abort a => Abort a
+               end
+    | Err e s0 => Err e s0
+    | Abort a => Abort a
+    end.
+Proof. reflexivity. Qed.
+
+Print Assumptions operand_lists_evaluate_left_to_right.
+Print Assumptions literal_operands_left_to_right.
+Print Assumptions call_evaluates_arguments_then_calls.
+Print Assumptions wrong_argument_count_evaluates_nothing.
+Print Assumptions or_short_circuits.
+Print Assumptions ternary_evaluates_selected_branch_only.
+Print Assumptions coalesce_skips_right_when_left_is_a_value.
+
+(* non-vacuity: f(probe(1), probe(2)) || probe(3) with f returning its second argument *)
+Open Scope string_scope.
+Definition ex_c07 : stmt :=
+  SStmts [SExpr (EFunc "f" (Some (SStmts [SReturn [EIdent "b"]])) ["a"; "b"] false);
+          SExpr (EOp (OBinary (ECall "f" [ECall "probe" [ELit (LInt 1)] false false; ECall "probe" [ELit (LInt 2)] false false] false false)
+                              "||" (ECall "probe" [ELit (LInt 3)] false false)))].
+Example ex_c07_runs :
+  match exec (mkOracle [] []) None 400 (CStmt (Some ex_c07))
+             (mkR (mkStore [mkScope None [("probe", Imm (VHost 0))] [] None] [] [] [] [] 0) 0 rv_nil []) with
+  | Ok s' => st_trace (r_st s') = [[VInt 2]; [VInt 1]] /\ deref (r_st s') (r_rv s') = VBool true
+  | _ => False
+  end.
+Proof. vm_compute. split; reflexivity. Qed.
